@@ -60,6 +60,10 @@ CLAIMED = {
             "W-srv with direct access to the panel operations: admission (GetUser -> GetSession), CloseSession, the two steps of a usage upload (1..3 extra upload tasks, 1..3 rounds each) and the real once-a-minute uploader, for 1..2 limited users, 1..5 client tasks opening/closing session ids 1..3, under statement-level schedules with thread stalls. Oracles: a cycle in the wait-for graph over Cloak's mutexes is a deadlock (reported with tasks, locks and acquisition sites); at quiescent moments every live session is owned by the single active record the panel knows for its UID; no task blocked at final quiescence",
             "5 C17", "panel operations are driven through an accessor rather than through real connections (C15/C16 drive the dispatcher path)",
             "seeded schedule search, wait-for-graph deadlock detector, ownership invariant"),
+    "C18": ("exploration",
+            "W-db: real bbolt LocalManager on a scratch directory behind the real APIRouter (ServeHTTP called directly) and the real userPanel. Operation histories of up to 40 (quick) / 400 (thorough) steps over three UIDs: POST with any subset of the six fields and values from {0, +-1, int32/int64 extremes, random}, GET, list, DELETE, malformed JSON, path/body UID mismatch, bad base64, direct manager calls, close and reopen at drawn points. After every step every read the API offers is compared with a reference key-value model (partial-update semantics; unset fields read as zero); after every mutation and reopen the 'owner connects / is listed / has usage uploaded' probes run (GetUser incl. MakeValve, GetSession incl. AuthoriseNewSession, ListAllUsers, UploadStatus) and any panic is a violation",
+            "5 C18", "single admin client (operation order and restart points are the only nondeterminism); crash = clean close/reopen, bbolt's own crash consistency is not under test",
+            "operation-history simulation against a reference key-value model with restarts"),
     "C12": ("fault_enumeration",
             "reset / EOF injected on each connection and direction after each of the first 14 writes and at 14 byte offsets inside records of a fixed exchange (complete enumeration of that space, each case under a drawn schedule), plus random workloads with scripted or scheduler-chosen resets/EOFs, Session.Close from either side racing with OpenStream/Read/Write/Accept/Stream.Close, stream churn and inactivity-timer phases (1..30 s virtual). Oracles: readers see a prefix then an error, no task left blocked at final quiescence, both sessions and every connection end up closed, OpenStream refused afterwards, stream-table/open-count equality at every quiescent moment, inactivity close only with zero open streams and no later than one timeout",
             "5 C12", "fault positions outside the enumerated grid are sampled; backpressure stalls that never end are not injected",
